@@ -18,6 +18,7 @@ REPO = os.environ.get("VP_REPO", "/repo")
 
 MAX_WITNESSES_PER_MECH = 5
 MAX_SAMPLES = 12
+DIGEST_CAP = 400000     # per shard; beyond it cases are still judged but no longer counted as distinct (lower bound)
 
 
 def jz(o):
@@ -73,6 +74,8 @@ class Ctx:
         self._mech_counts = {}
         self.cells = set()
         self.digests = set()
+        self.digest_overflow = 0
+        self.mult = 1            # thorough-tier budget multiplier (module attribute THOROUGH_MULT)
         self.samples = []
         self.classes = {}
         self.extra = {}
@@ -88,7 +91,7 @@ class Ctx:
 
     def scale(self, quick, thorough):
         """Per-shard count for random work given total budgets per tier."""
-        total = thorough if self.tier == "thorough" else quick
+        total = thorough * self.mult if self.tier == "thorough" else quick
         per = total // self.nshards
         if self.shard < total % self.nshards:
             per += 1
@@ -129,8 +132,12 @@ class Ctx:
             self.classes[cls] = self.classes.get(cls, 0) + 1
             self.cells.add("%s|%s|%s" % (monitor, cls, outcome if outcome is not None else ("ok" if ok else "bad")))
         if case is not None:
-            d = digest([monitor, case])
-            if d not in self.digests:
+            if len(self.digests) >= DIGEST_CAP:
+                self.digest_overflow += 1
+                d = None
+            else:
+                d = digest([monitor, case])
+            if d is not None and d not in self.digests:
                 self.digests.add(d)
                 if len(self.samples) < MAX_SAMPLES and (len(self.samples) < 4 or self.rnd.random() < 0.02):
                     self.samples.append({"monitor": monitor, "class": cls, "case": jz(case),
@@ -168,6 +175,7 @@ class Ctx:
             "mech_counts": self._mech_counts,
             "cells": sorted(self.cells),
             "digests": sorted(self.digests),
+            "digest_overflow": self.digest_overflow,
             "samples": self.samples,
             "classes": self.classes,
             "extra": jz(self.extra),
